@@ -94,6 +94,18 @@ RunAdd(ops) ==
     IN [z |-> {y \in {<<<<c>>, val(c)>> : c \in cs} : y[2] # 0}, mul |-> 0, add |-> Cardinality(cs), upd |-> Cardinality(cs), it |-> <<Cardinality(cs)>>,
         rows |-> << [k \in 1..Len(sq) |-> [stamp |-> <<k - 1>>, point |-> <<sq[k]>>, pos |-> k - 1]] >>, wrote |-> << [k \in 1..Len(sq) |-> TRUE] >>]
 
+\* dense product reduction  P[m] = prod_k A[m,k]  over the whole extent K of every stored row:
+\*      for m, (p_ref, a_k) in p_m << a_m:  p_ref <<= 1 ;  for k, a_val in a_k.iterShape(): p_ref *= a_val
+\* one "<<=" per offered row, one "*=" (a multiply and an update) per coordinate of the extent - whatever the running product holds
+RECURSIVE ProdRow(_, _, _)
+ProdRow(A, m, k) == IF k = 0 THEN 1 ELSE ProdRow(A, m, k - 1) * (IF \E x \in A : x[1] = <<m, k - 1>> THEN (CHOOSE x \in A : x[1] = <<m, k - 1>>)[2] ELSE 0)
+RunProd(ops, K) ==
+    LET rows == {x[1][1] : x \in ops["A"]}
+        sq   == SetToSortedSeq(rows)
+    IN [z |-> {y \in {<<<<m>>, ProdRow(ops["A"], m, K)>> : m \in rows} : y[2] # 0}, mul |-> Cardinality(rows) * K, add |-> 0, upd |-> Cardinality(rows) * (K + 1),
+        it |-> <<Cardinality(rows)>>,
+        rows |-> << [k \in 1..Len(sq) |-> [stamp |-> <<k - 1>>, point |-> <<sq[k]>>, pos |-> k - 1]] >>, wrote |-> << [k \in 1..Len(sq) |-> TRUE] >>]
+
 \* ---- tiling: variable v of every operand is split uniformly with step s into (v1, v0): v1 = (c div s) * s, v0 = c ----
 TilePt(pt, k, s) == SubSeq(pt, 1, k - 1) \o <<(pt[k] \div s) * s, pt[k]>> \o SubSeq(pt, k + 1, Len(pt))
 TileContent(C, k, s) == {<<TilePt(x[1], k, s), x[2]>> : x \in C}
